@@ -1,5 +1,5 @@
 (** Checkers of the C05 correspondence: each takes one observed case of the real implementation. *)
-From CM Require Import Harness.RunBase Base.Types_Glob Model.Glob Spec.GlobSpec Generated.Tables.
+From CM Require Import Harness.RunBase Base.Types_Glob Model.Glob Spec.GlobSpec Spec.GlobDefaults Generated.Tables.
 
 Definition defaults : list str * list str := (default_included_paths, default_excluded_paths).
 Definition strs_eqb : list str -> list str -> bool := list_eqb str_eqb.
@@ -23,8 +23,8 @@ Fixpoint strictly_sorted (l : list str) : bool :=
   end.
 Definition mf_spec_ok (c : mf_case) : bool :=
   let '(rels, exc, inc, obs) := c in
-  let inc' := or_default inc (fst defaults) in
-  let exc' := or_default exc (snd defaults) in
+  let inc' := or_default inc (fst pinned_defaults) in
+  let exc' := or_default exc (snd pinned_defaults) in
   forallb (fun f => Bool.eqb (mem_str f obs) (selectedb inc' exc' f)) rels
   && forallb (fun f => mem_str f rels) obs
   && strictly_sorted obs.
@@ -41,8 +41,8 @@ Definition e2e_model_ok (c : e2e_case) : bool :=
   strs_eqb (List.filter (fun _ => true) (ff_files_to_analyze defaults py_ext (files_for_directory (tree_of t)) exc inc)) obs.
 Definition e2e_spec_ok (c : e2e_case) : bool :=
   let '(t, exc, inc, obs) := c in
-  let inc' := or_default (or_none inc) (fst defaults) in
-  let exc' := or_default (or_none exc) (snd defaults) in
+  let inc' := or_default (or_none inc) (fst pinned_defaults) in
+  let exc' := or_default (or_none exc) (snd pinned_defaults) in
   forallb (fun e => Bool.eqb (mem_str (fst e) obs)
                              (is_regular (node_of (snd e)) && str_eqb (suffix_of (fst e)) [46; 112; 121]%N
                               && selectedb inc' exc' (fst e))) t
